@@ -17,6 +17,7 @@ From FB.Spec Require Import Prog.
 From FB.Model Require Import Types Monad SimpleOps Builder Persist Build Run.
 From FB.Proofs Require Import CmpLaws BuildFileLaws HashMemoInv HashMemoRun.
 From FB.Proofs Require ExecGenLaws.   (* T1g: the model routines are equal to the translation of the source (Gen/ExecGen.v) *)
+From FB.Proofs Require OpsGenLaws.   (* T1g: build_file*, subbuild, queries, cache validation of file_builder.py = Model/Builder.v (Gen/OpsGen.v) *)
 Import ListNotations.
 
 (* the test every cache decision applies to comparison results is JSON equality *)
